@@ -32,21 +32,28 @@ Section P.
     destruct (schemes_ok declared auth r) as [b c]. cbn in *. intros H. now rewrite (IH H).
   Qed.
 
-  Lemma scan_fst o rs :
-    o_has_auth o = true ->
+  Lemma requirement_ok_fst o r : callback_meaning auth o ->
+    fst (requirement_ok declared auth o r) = forallb acc r.
+  Proof.
+    intros Hc. destruct r as [|n r]; [reflexivity|]. unfold requirement_ok.
+    destruct (o_has_auth o) eqn:Ha; cbn [negb].
+    - apply schemes_ok_fst.
+    - cbn [fst forallb]. unfold scheme_accepted at 1. rewrite (Hc Ha n). now rewrite Bool.andb_false_r.
+  Qed.
+
+  Lemma scan_fst o rs : callback_meaning auth o ->
     fst (requirements_scan declared auth o rs) = existsb (fun r => forallb acc r) rs.
   Proof.
-    intros Ha. induction rs as [|r rest IH]; [reflexivity|]. cbn [requirements_scan existsb].
-    unfold requirement_ok. rewrite Ha. cbn [negb]. rewrite <- schemes_ok_fst.
-    destruct (schemes_ok declared auth r) as [b c]. cbn [fst]. destruct b; [reflexivity|].
+    intros Hc. induction rs as [|r rest IH]; [reflexivity|]. cbn [requirements_scan existsb].
+    rewrite <- (requirement_ok_fst o r Hc).
+    destruct (requirement_ok declared auth o r) as [b c]. cbn [fst]. destruct b; [reflexivity|].
     destruct (requirements_scan declared auth o rest) as [b' c']. exact IH.
   Qed.
 
-  Lemma security_ok_spec o rs :
-    (o_has_auth o = true \/ rs = []) ->
+  Lemma security_ok_spec o rs : callback_meaning auth o ->
     fst (security_ok declared auth o rs) = sec_spec declared auth rs.
   Proof.
-    intros [Ha| ->]; [|reflexivity]. destruct rs as [|r rest]; [reflexivity|].
+    intros Hc. destruct rs as [|r rest]; [reflexivity|].
     unfold security_ok, sec_spec. now apply scan_fst.
   Qed.
 
@@ -77,32 +84,28 @@ Section P.
   Lemma fm {A B} (f : A -> B) p l : forallb p (map f l) = forallb (fun x => p (f x)) l.
   Proof. induction l as [|x l IH]; cbn; [reflexivity|now rewrite IH]. Qed.
 
-  Theorem request_iff o op :
-    g_no_path_query o op = true -> g_auth_configured o op = true ->
+  Lemma filter_comm {A} (p q : A -> bool) l : filter p (filter q l) = filter q (filter p l).
+  Proof.
+    induction l as [|x l IH]; [reflexivity|]. cbn. destruct (q x) eqn:Eq, (p x) eqn:Ep; cbn; rewrite ?Eq, ?Ep, IH; reflexivity.
+  Qed.
+
+  Theorem request_iff o op : callback_meaning auth o ->
     (validate_request declared auth o op = None <-> request_spec declared auth o op = true).
   Proof.
-    intros G1 G2. rewrite none_iff_all. unfold checked_parts, request_spec, effective.
+    intros Hc. rewrite none_iff_all. unfold checked_parts, request_spec, effective.
     set (sec := match op_security op with Some l => l | None => doc_security op end) in *.
     rewrite !forallb_app. cbn [forallb snd]. rewrite Bool.andb_true_r.
-    rewrite security_ok_spec.
-    2:{ unfold g_auth_configured in G2. fold sec in G2. destruct (o_has_auth o); [now left|right].
-        destruct sec; [reflexivity|discriminate]. }
+    rewrite (security_ok_spec o sec Hc).
     rewrite !fm. cbn [snd].
     rewrite filter_app, forallb_app.
-    assert (Hp : filter (fun p => negb (o_excl_query o && loc_eqb (p_in p) LQuery))
-                        (filter (fun p => negb (overridden (op_params op) p)) (path_params op))
-                 = filter (fun p => negb (overridden (op_params op) p)) (path_params op)).
-    { apply (forallb_filter_id (fun _ => true)).
-      unfold g_no_path_query in G1. destruct (o_excl_query o); cbn [negb orb andb] in *.
-      - now apply forallb_sub.
-      - clear. induction (filter _ _) as [|x l IH]; [reflexivity|]. exact IH. }
-    rewrite Hp.
+    rewrite (filter_comm (fun p => negb (o_excl_query o && loc_eqb (p_in p) LQuery))
+                         (fun p => negb (overridden (op_params op) p)) (path_params op)).
     assert (Hb : forallb (fun pb : part * bool => snd pb)
                    (if op_has_body op && negb (o_excl_body o) then [(PBody, op_body_ok op)] else [])
                  = (negb (op_has_body op) || o_excl_body o || op_body_ok op)).
     { destruct (op_has_body op), (o_excl_body o), (op_body_ok op); reflexivity. }
     rewrite Hb.
-    set (A := sec_spec declared auth sec). set (B := forallb p_ok (filter _ (path_params op))).
+    set (A := sec_spec declared auth sec). set (B := forallb p_ok (filter _ (filter _ (path_params op)))).
     set (C := forallb p_ok (filter _ (op_params op))). set (D := negb _ || _ || _).
     destruct A, B, C, D; cbn; tauto.
   Qed.
@@ -128,14 +131,13 @@ Section P.
     unfold auth_calls. set (sec := match op_security op with Some l => l | None => doc_security op end).
     clearbody sec. intros n. unfold security_ok. destruct sec as [|r0 rest0]; [intros []|].
     generalize (r0 :: rest0) as rs. clear. induction rs as [|r rest IH]; [intros []|].
-    cbn [requirements_scan]. unfold requirement_ok.
-    destruct (o_has_auth o); cbn [negb].
-    - destruct (schemes_ok declared auth r) as [b c] eqn:E.
-      assert (Hc : forall m, In m c -> declared m = true).
-      { intros m Hm. apply (schemes_ok_calls_declared r). now rewrite E. }
-      destruct b; cbn; [apply Hc|].
-      destruct (requirements_scan declared auth o rest) as [b' c']. cbn in *.
-      intros H. apply in_app_or in H as [H|H]; auto.
-    - destruct (requirements_scan declared auth o rest) as [b' c']. cbn in *. exact IH.
+    cbn [requirements_scan].
+    assert (Hc : forall m, In m (snd (requirement_ok declared auth o r)) -> declared m = true).
+    { intros m. unfold requirement_ok. destruct r as [|x r']; [intros []|].
+      destruct (o_has_auth o); cbn [negb]; [apply schemes_ok_calls_declared|intros []]. }
+    destruct (requirement_ok declared auth o r) as [b c]. cbn [snd] in Hc.
+    destruct b; cbn; [apply Hc|].
+    destruct (requirements_scan declared auth o rest) as [b' c']. cbn in *.
+    intros H. apply in_app_or in H as [H|H]; auto.
   Qed.
 End P.
